@@ -1171,6 +1171,246 @@ Section GrowModel.
       destruct (step_refines _ _ _ _ HI ES) as (I1 & O1 & A1). simpl. split; auto.
       exists (abs s1). split; auto. split; [apply I1|]. eauto.
   Qed.
+
+  (* ---- grow_refused_insert_succeeds_unless_path_full ---- *)
+  Lemma add_loop_bound : forall t n p idx i q, add_loop n t p idx = Some (i, q) -> (q <= p + n)%nat.
+  Proof.
+    induction n; intros p idx i q H; simpl in H; destruct (isFull (getb t idx)); try discriminate;
+      try (inversion H; subst; lia).
+    apply IHn in H. lia.
+  Qed.
+
+  Lemma tadd_some_iff : forall t k, tinv t ->
+    ((exists d, Z.of_nat d < bcount t /\ isFull (getb t (path (bcount t) (h k) d)) = false) -> exists t', tadd t k = Some t') /\
+    ((forall d, Z.of_nat d < bcount t -> isFull (getb t (path (bcount t) (h k) d)) = true) -> tadd t k = None).
+  Proof.
+    intros t k Ht. pose proof (bcount_pos t (proj1 Ht)) as BP. unfold tadd.
+    change (start (h k) (bcount t)) with (path (bcount t) (h k) 0).
+    destruct (add_loop (Z.to_nat (bcount t - 1)) t 0 (path (bcount t) (h k) 0)) as [[idx q]|] eqn:EL; split; eauto.
+    - intros HA. destruct (add_loop_spec _ _ _ _ _ _ EL) as (E & _ & NF & _).
+      apply add_loop_bound in EL. rewrite E in NF. rewrite HA in NF; [discriminate|lia].
+    - intros (d & Hd & NF). rewrite (add_loop_none _ _ _ _ EL d) in NF; [discriminate|lia].
+  Qed.
+
+  Lemma hfind_notin_none : forall s k, ~ In k (abs s) -> hfind s k = None.
+  Proof.
+    intros s k H. destruct (hfind s k) as [[[g idx] pos]|] eqn:E; auto.
+    destruct (hfind_sound _ _ _ _ _ E) as (_ & _ & _ & Hin). tauto.
+  Qed.
+
+  Theorem refused_growth_insert : forall s t r k sch, Inv s -> gens s = t :: r -> ~ In k (abs s) ->
+    (count s <? capacity s) = false -> (calcCapacity (2 ^ newLog (gens s)) <=? count s) = false ->
+    ((exists d, Z.of_nat d < bcount t /\ isFull (getb t (path (bcount t) (h k) d)) = false) ->
+       exists s', step s (OInsert k false false true sch) = Some (s', RInserted) /\ Inv s' /\
+                  Permutation (abs s') (k :: abs s) /\ capacity s' = capacity s /\ (length (gens s') <= length (gens s))%nat) /\
+    ((forall d, Z.of_nat d < bcount t -> isFull (getb t (path (bcount t) (h k) d)) = true) ->
+       step s (OInsert k false false true sch) = Some (s, RFull)).
+  Proof.
+    intros s t r k sch HI EG NI C1 C2.
+    assert (ST : step s (OInsert k false false true sch) = add_head s t r k false (capacity s) sch).
+    { simpl. rewrite (hfind_notin_none _ _ NI). unfold hadd. rewrite C1, C2, EG. auto. }
+    rewrite ST. destruct HI as (HF & HD & HC & HN). rewrite EG in HF. inversion HF; subst.
+    destruct (tadd_some_iff t k H1) as (TA & TB). split.
+    - intros HE. destruct (TA HE) as (t' & ET). unfold add_head. rewrite ET.
+      destruct (tadd_spec _ _ _ H1 ET) as (T1 & P1 & L1).
+      assert (HF' : Forall tinv (t' :: r)) by (constructor; auto).
+      assert (HN' : nothrowReloc = true -> (length (t' :: r) <= 1)%nat).
+      { intros HT. specialize (HN HT). rewrite EG in HN. auto. }
+      destruct (relocate (t' :: r) sch) as [gs|] eqn:ER; [|exfalso; eapply relocate_not_none; eauto].
+      eexists. split; [reflexivity|].
+      assert (AH : add_head s t r k false (capacity s) sch = Some (mkH gs (count s + 1) (capacity s), RInserted)).
+      { unfold add_head. rewrite ET, ER. auto. }
+      assert (ND : NoDup (k :: allkeys (t :: r))) by (constructor; unfold abs in *; rewrite EG in *; auto).
+      assert (HC' : count s = Z.of_nat (length (allkeys (t :: r)))) by (unfold abs in HC; rewrite EG in HC; auto).
+      assert (HN2 : nothrowReloc = true -> (length r <= 1)%nat) by (intros HT; specialize (HN' HT); simpl in HN'; lia).
+      destruct (add_head_spec _ _ _ _ _ _ _ _ _ HF ND HC' HN2 AH) as [(A1 & A2 & A3 & A4 & A5 & A6 & A7 & A8)|(A1 & [A2|A2])]; try discriminate.
+      unfold Inv. unfold abs in *. rewrite EG. simpl in *. repeat split; auto.
+    - intros HA. unfold add_head. rewrite (TB HA). auto.
+  Qed.
+
+  (* ---- later_ops_complete_migration ---- *)
+  Hypothesis path_covers : forall bc hc i, 0 < bc -> 0 <= i < bc -> exists d, Z.of_nat d < bc /\ path bc hc d = i.
+  Hypothesis cc_le_phys : forall L, 0 <= L -> calcCapacity (2 ^ L) <= cap * 2 ^ L.
+
+  Lemma relocate_head : forall nw olds sch gs', Forall tinv (nw :: olds) -> relocate (nw :: olds) sch = Some gs' ->
+    exists nw' olds', gs' = nw' :: olds' /\ tlog nw' = tlog nw.
+  Proof.
+    intros nw olds sch gs' HF H. unfold relocate in H. destruct olds as [|g olds].
+    - inversion H; subst; eauto.
+    - inversion HF; subst.
+      destruct (reloc_gens (g :: olds) nw sch) as [[[olds' nw'] sch'] st] eqn:E.
+      destruct (reloc_gens_spec _ _ _ _ _ _ _ H3 H2 E) as (_ & _ & L1 & _).
+      destruct st; inversion H; subst; eauto.
+  Qed.
+
+  Lemma full_count : forall (l : list bucket), (forall b, In b l -> isFull b = true) ->
+    cap * Z.of_nat (length l) <= Z.of_nat (length (flat_map items l)).
+  Proof.
+    induction l; intros H; simpl; [lia|].
+    assert (isFull a = true) by (apply H; simpl; auto). unfold isFull, blen in H0. apply Z.leb_le in H0.
+    assert (cap * Z.of_nat (length l) <= Z.of_nat (length (flat_map items l))) by (apply IHl; intros; apply H; simpl; auto).
+    rewrite app_length. rewrite Nat2Z.inj_add. rewrite Zpos_P_of_succ_nat. lia.
+  Qed.
+
+  Lemma tadd_succeeds : forall t k, tinv t -> Z.of_nat (length (tkeys t)) < cap * bcount t -> exists t', tadd t k = Some t'.
+  Proof.
+    intros t k Ht HL. destruct (tadd t k) as [t'|] eqn:E; [eauto|exfalso].
+    pose proof (bcount_pos t (proj1 Ht)) as BP.
+    unfold tadd in E. change (start (h k) (bcount t)) with (path (bcount t) (h k) 0) in E.
+    destruct (add_loop (Z.to_nat (bcount t - 1)) t 0 (path (bcount t) (h k) 0)) as [[idx q]|] eqn:EL; [discriminate|].
+    assert (AF : forall b, In b (tbs t) -> isFull b = true).
+    { intros b Hb. apply In_nth_error in Hb. destruct Hb as [i Hi].
+      pose proof (nth_error_some_lt _ _ _ _ Hi) as Li. destruct Ht as (H0 & HLn & _). rewrite HLn in Li.
+      destruct (path_covers (bcount t) (h k) (Z.of_nat i) BP ltac:(lia)) as (d & Hd & Ed).
+      pose proof (add_loop_none _ _ _ _ EL d ltac:(lia)) as FD. rewrite Ed in FD.
+      unfold getb in FD. rewrite Nat2Z.id in FD. rewrite (nth_error_nth' _ _ _ emptyB _ Hi) in FD. auto. }
+    pose proof (full_count _ AF). destruct Ht as (H0 & HLn & _). rewrite HLn in H. unfold tkeys in HL.
+    rewrite Z2Nat.id in H by lia. lia.
+  Qed.
+
+  Lemma reloc_items_ok : forall its nw, tinv nw ->
+    Z.of_nat (length its + length (tkeys nw)) <= cap * bcount nw ->
+    exists nw', reloc_items its nw [] = ([], nw', [], MOk).
+  Proof.
+    induction its as [|k rest IH]; intros nw Ht HL; simpl; [eauto|].
+    destruct (tadd_succeeds nw k Ht) as (nw1 & E). { simpl in HL. lia. }
+    rewrite E. destruct (tadd_spec _ _ _ Ht E) as (T1 & P1 & L1).
+    apply IH; auto. apply Permutation_length in P1. unfold bcount in *. rewrite L1. rewrite P1. simpl in *. lia.
+  Qed.
+
+  Lemma reloc_buckets_ok : forall bs nw, tinv nw ->
+    Z.of_nat (length (flat_map items bs) + length (tkeys nw)) <= cap * bcount nw ->
+    exists bs' nw', reloc_buckets bs nw [] = (bs', nw', [], MOk).
+  Proof.
+    induction bs as [|b rest IH]; intros nw Ht HL; simpl; [eauto|].
+    simpl in HL. rewrite app_length in HL.
+    destruct (reloc_items_ok (rev (items b)) nw Ht) as (nw1 & E). { rewrite rev_length. lia. }
+    rewrite E. destruct (reloc_items_spec _ _ _ _ _ _ _ Ht E) as (T1 & L1 & (dn & E1 & P1) & _).
+    rewrite app_nil_r in E1. subst dn. apply Permutation_length in P1. rewrite app_length, rev_length in P1.
+    destruct (IH nw1 T1) as (bs' & nw' & E2). { unfold bcount in *. rewrite L1. lia. }
+    rewrite E2. eauto.
+  Qed.
+
+  Lemma reloc_gens_ok : forall olds nw, Forall tinv olds -> tinv nw ->
+    Z.of_nat (length (allkeys olds) + length (tkeys nw)) <= cap * bcount nw ->
+    exists nw', reloc_gens olds nw [] = ([], nw', [], MOk).
+  Proof.
+    induction olds as [|g older IH]; intros nw HF Ht HL; simpl; [eauto|].
+    inversion HF; subst. simpl in HL. rewrite app_length in HL.
+    destruct (IH nw H2 Ht) as (nw1 & E). { lia. }
+    rewrite E. destruct (reloc_gens_spec _ _ _ _ _ _ _ H2 Ht E) as (_ & T1 & L1 & P1 & _).
+    apply Permutation_length in P1. simpl in P1. rewrite app_length in P1.
+    destruct (reloc_buckets_ok (tbs g) nw1 T1) as (bs' & nw2 & E2). { unfold bcount in *. rewrite L1. unfold tkeys in HL at 1. lia. }
+    rewrite E2. eauto.
+  Qed.
+
+  (* P s: invariant + the capacity field does not exceed the physical size of the newest table *)
+  Definition CapOk (s : hset) : Prop :=
+    exists t r, gens s = t :: r /\ capacity s <= cap * bcount t.
+
+  Definition fresh_insert (k : Z) : op := OInsert k false false false [].
+
+  Lemma fresh_insert_step : forall s k, Inv s -> CapOk s -> ~ In k (abs s) ->
+    (step s (fresh_insert k) = Some (s, RCheck)) \/
+    exists s1, step s (fresh_insert k) = Some (s1, RInserted) /\ Inv s1 /\ CapOk s1 /\
+      Permutation (abs s1) (k :: abs s) /\ count s1 = count s + 1 /\
+      ((count s < capacity s /\ capacity s1 = capacity s /\ (length (gens s1) <= length (gens s))%nat) \/
+       (capacity s <= count s /\ length (gens s1) = 1%nat)).
+  Proof.
+    intros s k HI (t & r & EG & HCap) NI.
+    assert (ST : step s (fresh_insert k) = hadd s k false false []).
+    { simpl. rewrite (hfind_notin_none _ _ NI). auto. }
+    rewrite ST. pose proof HI as (HF & HD & HC & HN).
+    unfold hadd. destruct (Z.ltb_spec (count s) (capacity s)).
+    - (* room in the newest table *)
+      right. rewrite EG. rewrite EG in HF. inversion HF; subst.
+      assert (LK : Z.of_nat (length (tkeys t)) < cap * bcount t).
+      { unfold abs in HC. rewrite EG in HC. simpl in HC. rewrite app_length in HC. lia. }
+      destruct (tadd_succeeds t k H2 LK) as (t' & ET).
+      destruct (tadd_spec _ _ _ H2 ET) as (T1 & P1 & L1).
+      assert (HF' : Forall tinv (t' :: r)) by (constructor; auto).
+      assert (HN' : nothrowReloc = true -> (length (t' :: r) <= 1)%nat).
+      { intros HT. specialize (HN HT). rewrite EG in HN. auto. }
+      destruct (relocate (t' :: r) []) as [gs|] eqn:ER; [|exfalso; eapply relocate_not_none; eauto].
+      assert (AH : add_head s t r k false (capacity s) [] = Some (mkH gs (count s + 1) (capacity s), RInserted)).
+      { unfold add_head. rewrite ET, ER. auto. }
+      rewrite AH. eexists. split; [reflexivity|].
+      assert (ND : NoDup (k :: allkeys (t :: r))) by (constructor; unfold abs in *; rewrite EG in *; auto).
+      assert (HC' : count s = Z.of_nat (length (allkeys (t :: r)))) by (unfold abs in HC; rewrite EG in HC; auto).
+      assert (HN2 : nothrowReloc = true -> (length r <= 1)%nat) by (intros HT; specialize (HN' HT); simpl in HN'; lia).
+      destruct (add_head_spec _ _ _ _ _ _ _ _ _ HF ND HC' HN2 AH) as [(A1 & A2 & A3 & A4 & A5 & A6 & A7 & A8)|(A1 & [A2|A2])]; try discriminate.
+      destruct (relocate_head _ _ _ _ HF' ER) as (nw' & olds' & EGS & LNW).
+      split; [unfold Inv; auto|]. split.
+      { exists nw', olds'. simpl. split; auto. unfold bcount in *. rewrite LNW, L1. auto. }
+      split; [unfold abs in *; rewrite EG; auto|]. split; [reflexivity|].
+      left. simpl in *. auto.
+    - (* growth, allocation granted *)
+      destruct (Z.leb_spec (calcCapacity (2 ^ newLog (gens s))) (count s)); [left; auto|right].
+      set (nl := newLog (gens s)) in *.
+      assert (NL : 0 <= nl) by (apply newLog_nonneg; auto).
+      pose proof (cc_le_phys nl NL) as PH.
+      pose proof (tinv_newTable nl NL) as TN.
+      assert (BN : bcount (newTable nl) = 2 ^ nl) by reflexivity.
+      destruct (tadd_succeeds (newTable nl) k TN) as (t' & ET).
+      { rewrite tkeys_newTable. simpl. rewrite BN. pose proof (Z.pow_pos_nonneg 2 nl). nia. }
+      destruct (tadd_spec _ _ _ TN ET) as (T1 & P1 & L1).
+      rewrite tkeys_newTable in P1. apply Permutation_length in P1. simpl in P1.
+      assert (RG : exists nw', relocate (t' :: gens s) [] = Some [nw']).
+      { destruct (reloc_gens_ok (gens s) t' HF T1) as (nw' & E).
+        { unfold abs in HC. unfold bcount. rewrite L1. simpl tlog. rewrite P1. lia. }
+        exists nw'. unfold relocate. rewrite EG in *. rewrite E. auto. }
+      destruct RG as (nw' & ER).
+      assert (AH : add_head s (newTable nl) (gens s) k false (calcCapacity (2 ^ nl)) [] =
+                   Some (mkH [nw'] (count s + 1) (calcCapacity (2 ^ nl)), RInserted)).
+      { unfold add_head. rewrite ET, ER. auto. }
+      rewrite AH. eexists. split; [reflexivity|].
+      assert (HF' : Forall tinv (newTable nl :: gens s)) by (constructor; auto).
+      assert (EK : allkeys (newTable nl :: gens s) = abs s) by (unfold abs; simpl; rewrite tkeys_newTable; auto).
+      assert (ND' : NoDup (k :: allkeys (newTable nl :: gens s))) by (rewrite EK; constructor; auto).
+      assert (HC' : count s = Z.of_nat (length (allkeys (newTable nl :: gens s)))) by (rewrite EK; auto).
+      destruct (add_head_spec _ _ _ _ _ _ _ _ _ HF' ND' HC' HN AH) as [(A1 & A2 & A3 & A4 & A5 & A6 & A7 & A8)|(A1 & [A2|A2])]; try discriminate.
+      assert (HFt : Forall tinv (t' :: gens s)) by (constructor; auto).
+      destruct (relocate_head _ _ _ _ HFt ER) as (nw2 & olds2 & EGS & LNW). inversion EGS; subst nw2 olds2.
+      split; [unfold Inv; auto|]. split.
+      { exists nw', []. simpl. split; auto. unfold bcount. rewrite LNW, L1. simpl. auto. }
+      split; [rewrite EK in A6; auto|]. split; [reflexivity|]. right. simpl. split; auto.
+  Qed.
+
+  Lemma run_cons : forall s o os, run s (o :: os) =
+    match step s o with
+    | None => None
+    | Some (s1, x) => match run s1 os with None => None | Some (s2, xs) => Some (s2, x :: xs) end
+    end.
+  Proof. reflexivity. Qed.
+
+  Theorem later_ops_complete_migration : forall ks s, Inv s -> CapOk s -> NoDup ks ->
+    (forall k, In k ks -> ~ In k (abs s)) ->
+    exists s' outs, run s (map fresh_insert ks) = Some (s', outs) /\
+      Forall (fun o => o = RInserted \/ o = RCheck) outs /\
+      (Forall (fun o => o = RInserted) outs ->
+         (Z.max 0 (capacity s - count s) < Z.of_nat (length ks) \/ length (gens s) = 1%nat) -> length (gens s') = 1%nat).
+  Proof.
+    induction ks as [|k ks IH]; intros s HI HC ND HFr.
+    - exists s, []. simpl. split; auto. split; auto. intros _ [H|H]; auto. lia.
+    - inversion ND; subst.
+      destruct (fresh_insert_step s k HI HC (HFr k (or_introl eq_refl))) as [E|(s1 & E & I1 & C1 & P1 & CN & D)].
+      + (* MOMO_CHECK(newCapacity > mCount) fails: nothing changes *)
+        destruct (IH s HI HC H2) as (s' & outs & R & F & _). { intros; apply HFr; simpl; auto. }
+        exists s', (RCheck :: outs). simpl map. rewrite run_cons, E, R. split; auto. split; [constructor; auto|].
+        intros HA. inversion HA; subst. discriminate.
+      + assert (FR : forall k0, In k0 ks -> ~ In k0 (abs s1)).
+        { intros k0 Hk0 Hin. apply (Permutation_in _ P1) in Hin. simpl in Hin. destruct Hin as [Hin|Hin].
+          - subst k0. tauto.
+          - eapply HFr; [right; eauto|auto]. }
+        destruct (IH s1 I1 C1 H2 FR) as (s' & outs & R & F & G).
+        exists s', (RInserted :: outs). simpl map. rewrite run_cons, E, R. split; auto. split; [constructor; auto|].
+        intros HA HB. inversion HA; subst. apply G; auto.
+        destruct C1 as (t1 & r1 & EG1 & _).
+        destruct D as [(D1 & D2 & D3)|(D1 & D2)]; [|auto].
+        destruct HB as [HB|HB].
+        * left. simpl length in HB. lia.
+        * right. rewrite EG1 in *. simpl in *. lia.
+  Qed.
 End GrowModel.
 
 (* ---- concrete bucket kinds (instantiation used for extraction and for the non-vacuity examples) ---- *)
@@ -1214,3 +1454,249 @@ Definition cfg_find (c : config) (s : hset Z) (k : Z) : bool :=
   match hfind Z 0 (fun _ b => b) (spread (c_dist c)) (c_wf0 c) start_mask
               (if c_probe c =? 0 then next_linear else next_tri) (c_nothrow c) s k with
   | Some _ => true | None => false end.
+
+(* ================================================================================================== *)
+(*  Closed statements (no section hypotheses): what Properties_C11.v exports                           *)
+(* ================================================================================================== *)
+Section Final.
+  Variable B : Type.
+  Variable b0 : B.
+  Variable decode : Z -> B -> Z.
+  Variable upd_bound : B -> Z -> B.
+  Variable h : Z -> Z.
+  Variable cap : Z.
+  Variable wf0 : bool.
+  Variable start : Z -> Z -> Z.
+  Variable next : Z -> Z -> Z -> Z.
+  Variable logStart : Z.
+  Variable calcCapacity : Z -> Z.
+  Variable shift : Z -> Z.
+  Variable nothrowReloc : bool.
+
+  (* what the proofs need to know about the bucket kind: index functions stay in range, UpdateMaxProbe never
+     under-approximates (C13), the growth policy does not shrink *)
+  Definition kind_ok : Prop :=
+    0 < cap /\
+    (forall hc bc, 0 < bc -> 0 <= start hc bc < bc) /\
+    (forall i bc p, 0 < bc -> 0 <= next i bc p < bc) /\
+    (forall L b p, 0 <= p -> p <= decode L (upd_bound b p) /\ decode L b <= decode L (upd_bound b p)) /\
+    (forall bc, 0 <= shift bc) /\ 0 <= logStart.
+
+  (* additionally for later_ops_complete_migration: the probe sequence reaches every bucket (C13) and the
+     capacity of a table never exceeds its physical size *)
+  Definition kind_ok2 : Prop :=
+    (forall bc hc i, 0 < bc -> 0 <= i < bc -> exists d, Z.of_nat d < bc /\ path start next bc hc d = i) /\
+    (forall L, 0 <= L -> calcCapacity (2 ^ L) <= cap * 2 ^ L).
+
+  Notation Inv' := (Inv B b0 decode h cap wf0 start next nothrowReloc).
+  Notation step' := (step B b0 decode upd_bound h cap wf0 start next logStart calcCapacity shift nothrowReloc).
+  Notation run' := (run B b0 decode upd_bound h cap wf0 start next logStart calcCapacity shift nothrowReloc).
+  Notation hfind' := (hfind B b0 decode h wf0 start next nothrowReloc).
+
+  Theorem relocate_interrupted_inv : kind_ok -> forall os s outs, run' (hinit B) os = Some (s, outs) -> Inv' s.
+  Proof.
+    intros (H1 & H2 & H3 & H4 & H5 & H6) os s outs H.
+    eapply (run_inv B b0 decode upd_bound h cap wf0 start next logStart calcCapacity shift nothrowReloc); eauto.
+    apply Inv_init.
+  Qed.
+
+  Theorem inv_step : kind_ok -> forall s o s' r, Inv' s -> step' s o = Some (s', r) -> Inv' s'.
+  Proof.
+    intros (H1 & H2 & H3 & H4 & H5 & H6) s o s' r HI H.
+    eapply (step_refines B b0 decode upd_bound h cap wf0 start next logStart calcCapacity shift nothrowReloc); eauto.
+  Qed.
+
+  Theorem all_findable : forall s k, Inv' s -> (In k (abs B s) <-> exists loc, hfind' s k = Some loc).
+  Proof.
+    clear upd_bound logStart calcCapacity shift.
+    intros s k HI. split.
+    - intros Hin. eapply hfind_complete; eauto.
+    - intros ([[g idx] pos] & E). eapply hfind_sound in E. destruct E as (t & _ & _ & Hin). exact Hin.
+    Unshelve. all: try exact 0; try exact (fun _ => 0).
+  Qed.
+
+  Theorem traversal_once : forall s, Inv' s -> Permutation (traverse B s) (abs B s) /\ NoDup (traverse B s).
+  Proof. intros s HI. eapply traverse_spec; eauto. Qed.
+
+  Theorem removable : forall s k, Inv' s -> In k (abs B s) ->
+    exists s', step' s (ORemove k) = Some (s', RRemoved true) /\ Inv' s' /\
+      Permutation (abs B s) (k :: abs B s') /\ ~ In k (abs B s') /\ hfind' s' k = None /\
+      length (gens B s') = length (gens B s).
+  Proof.
+    intros s k HI Hin.
+    assert (EX : exists loc, hfind' s k = Some loc) by (eapply hfind_complete; eauto).
+    destruct EX as ([[g idx] pos] & E).
+    pose proof E as E2. eapply remove_spec in E2; eauto. destruct E2 as (A1 & A2 & A3 & A4).
+    eexists. split; [simpl; rewrite E; reflexivity|]. split; [exact A1|]. split; [exact A2|]. split; [exact A3|].
+    split; [|exact A4]. eapply hfind_notin_none; eauto.
+    Unshelve. all: try exact 0; try exact (fun _ => 0).
+  Qed.
+
+  Theorem history_refines_set : kind_ok -> forall os s outs, run' (hinit B) os = Some (s, outs) ->
+    refines [] os outs (abs B s).
+  Proof.
+    intros (H1 & H2 & H3 & H4 & H5 & H6) os s outs H.
+    apply (run_refines B b0 decode upd_bound h cap wf0 start next logStart calcCapacity shift nothrowReloc H1 H2 H3 H4 H5 H6 os (hinit B) s outs); auto.
+    apply Inv_init.
+  Qed.
+
+  Theorem failed_op_changes_nothing : kind_ok -> forall s o s' r, Inv' s -> step' s o = Some (s', r) ->
+    (r = RFull \/ r = RBadAlloc \/ r = RExn \/ r = RCheck \/ r = RAlready \/ r = RRemoved false) -> s' = s.
+  Proof.
+    intros (H1 & H2 & H3 & H4 & H5 & H6) s o s' r HI H HR. destruct o; simpl in H.
+    - destruct hfail; [inversion H; auto|].
+      destruct (hfind' s k) as [[[g idx] pos]|] eqn:EF; [inversion H; auto|].
+      assert (NI : ~ In k (abs B s)) by (eapply hfind_none_notin; eauto).
+      destruct (hadd_spec B b0 decode upd_bound h cap wf0 start next logStart calcCapacity shift nothrowReloc H1 H2 H3 H4 H5 H6
+                  s k afail refuse sch s' r HI NI H) as [(A1 & _)|(A1 & _)]; auto.
+      subst r. intuition discriminate.
+    - inversion H; auto.
+    - destruct (hfind' s k) as [[[g idx] pos]|]; inversion H; subst; auto. intuition discriminate.
+    - destruct (hreserve_spec B b0 decode upd_bound h cap wf0 start next logStart calcCapacity shift nothrowReloc H1 H2 H3 H4 H5 H6
+                  s n refuse sch s' r HI H) as (_ & _ & [A|(A & _)]); auto. subst r. intuition discriminate.
+    - inversion H; auto.
+    - inversion H; auto.
+  Qed.
+
+  Theorem grow_refused_insert_succeeds_unless_path_full : kind_ok -> forall s t r k sch,
+    Inv' s -> gens B s = t :: r -> ~ In k (abs B s) ->
+    (count B s <? capacity B s) = false ->
+    (calcCapacity (2 ^ newLog B logStart shift (gens B s)) <=? count B s) = false ->
+    ((exists d, Z.of_nat d < bcount B t /\ isFull B cap (getb B b0 wf0 t (path start next (bcount B t) (h k) d)) = false) ->
+       exists s', step' s (OInsert k false false true sch) = Some (s', RInserted) /\ Inv' s' /\
+                  Permutation (abs B s') (k :: abs B s) /\ capacity B s' = capacity B s /\
+                  (length (gens B s') <= length (gens B s))%nat) /\
+    ((forall d, Z.of_nat d < bcount B t -> isFull B cap (getb B b0 wf0 t (path start next (bcount B t) (h k) d)) = true) ->
+       step' s (OInsert k false false true sch) = Some (s, RFull)).
+  Proof.
+    intros (H1 & H2 & H3 & H4 & H5 & H6). intros.
+    eapply (refused_growth_insert B b0 decode upd_bound h cap wf0 start next logStart calcCapacity shift nothrowReloc); eauto.
+  Qed.
+
+  Theorem later_ops_complete_migration_thm : kind_ok -> kind_ok2 -> forall ks s,
+    Inv' s -> CapOk B cap s -> NoDup ks -> (forall k, In k ks -> ~ In k (abs B s)) ->
+    exists s' outs, run' s (map fresh_insert ks) = Some (s', outs) /\
+      Forall (fun o => o = RInserted \/ o = RCheck) outs /\
+      (Forall (fun o => o = RInserted) outs ->
+         (Z.max 0 (capacity B s - count B s) < Z.of_nat (length ks) \/ length (gens B s) = 1%nat) ->
+         length (gens B s') = 1%nat).
+  Proof.
+    intros (H1 & H2 & H3 & H4 & H5 & H6) (K1 & K2). intros.
+    eapply (later_ops_complete_migration B b0 decode upd_bound h cap wf0 start next logStart calcCapacity shift nothrowReloc); eauto.
+  Qed.
+
+  (* CapOk is itself an invariant of every reachable non-empty state *)
+End Final.
+
+(* ================================================================================================== *)
+(*  The concrete bucket kinds satisfy the hypotheses; non-vacuity                                       *)
+(* ================================================================================================== *)
+Definition cfg_next (c : config) := if c_probe c =? 0 then next_linear else next_tri.
+Definition cfg_cc (c : config) := if c_policy c =? 0 then cc_base (c_cap c) else cc_open (c_cap c).
+Definition cfg_sh (c : config) := if c_policy c =? 0 then sh_base (c_cap c) else sh_open (c_cap c).
+
+Lemma concrete_kind_ok : forall c, 0 < c_cap c -> 0 <= c_logStart c ->
+  kind_ok Z (fun _ b => b) Z.max (c_cap c) start_mask (cfg_next c) (c_logStart c) (cfg_sh c).
+Proof.
+  intros c H1 H2. unfold kind_ok. split; [auto|]. split; [|split; [|split; [|split]]]; auto.
+  - intros. unfold start_mask. apply Z.mod_pos_bound; auto.
+  - intros. unfold cfg_next, next_linear, next_tri. destruct (c_probe c =? 0); apply Z.mod_pos_bound; auto.
+  - intros. lia.
+  - intros. unfold cfg_sh, sh_base, sh_open.
+    destruct (c_policy c =? 0); try lia.
+    destruct (c_cap c =? 1); try lia. destruct (c_cap c =? 2); [destruct (bc <? 65536)|destruct (bc <? 1048576)]; lia.
+Qed.
+
+Lemma path_linear : forall bc hc d, 0 < bc -> path start_mask next_linear bc hc d = (hc + Z.of_nat d) mod bc.
+Proof.
+  induction d; intros H.
+  - simpl. unfold start_mask. rewrite Z.add_0_r. auto.
+  - rewrite path_S. rewrite IHd by auto. unfold next_linear. rewrite Z.add_mod_idemp_l by lia.
+    f_equal. rewrite Nat2Z.inj_succ. lia.
+Qed.
+
+Lemma linear_kind_ok2 : forall c, 0 < c_cap c -> c_probe c = 0 ->
+  kind_ok2 (c_cap c) start_mask (cfg_next c) (cfg_cc c).
+Proof.
+  intros c H1 HP. unfold kind_ok2, cfg_next. rewrite HP. simpl. split.
+  - intros bc hc i Hbc Hi. exists (Z.to_nat ((i - hc) mod bc)).
+    pose proof (Z.mod_pos_bound (i - hc) bc Hbc). rewrite Z2Nat.id by lia. split; [lia|].
+    rewrite path_linear by auto. rewrite Z2Nat.id by lia. rewrite Z.add_mod_idemp_r by lia.
+    replace (hc + (i - hc)) with i by lia. apply Z.mod_small; auto.
+  - intros L HL. assert (0 < 2 ^ L) by (apply Z.pow_pos_nonneg; lia). set (x := 2 ^ L) in *.
+    unfold cfg_cc, cc_base, cc_open.
+    destruct (c_policy c =? 0).
+    + destruct (Z.eqb_spec (c_cap c) 1); [rewrite e; apply Z.div_le_upper_bound; lia|].
+      destruct (Z.eqb_spec (c_cap c) 2); [rewrite e; pose proof (Z.div_le_upper_bound x 2 x ltac:(lia) ltac:(lia)); lia|]. nia.
+    + destruct (c_cap c =? 7); apply Z.div_le_upper_bound; nia.
+Qed.
+
+Fixpoint cfg_run (c : config) (s : hset Z) (os : list op) : option (hset Z * list out) :=
+  match os with
+  | [] => Some (s, [])
+  | o :: r => match cfg_step c s o with
+              | None => None
+              | Some (s1, x) => match cfg_run c s1 r with None => None | Some (s2, xs) => Some (s2, x :: xs) end
+              end
+  end.
+
+Lemma cfg_run_is_run : forall c s os, cfg_run c s os =
+  run Z 0 (fun _ b => b) Z.max (spread (c_dist c)) (c_cap c) (c_wf0 c) start_mask (cfg_next c) (c_logStart c)
+      (cfg_cc c) (cfg_sh c) (c_nothrow c) s os.
+Proof.
+  intros c s os; revert s; induction os as [|a os IH]; intros s; [reflexivity|].
+  rewrite run_cons. simpl cfg_run.
+  change (cfg_step c s a) with (step Z 0 (fun _ b => b) Z.max (spread (c_dist c)) (c_cap c) (c_wf0 c) start_mask (cfg_next c) (c_logStart c) (cfg_cc c) (cfg_sh c) (c_nothrow c) s a).
+  destruct (step Z 0 (fun _ b => b) Z.max (spread (c_dist c)) (c_cap c) (c_wf0 c) start_mask (cfg_next c) (c_logStart c) (cfg_cc c) (cfg_sh c) (c_nothrow c) s a) as [[s1 x]|]; auto.
+  rewrite IH. reflexivity.
+Qed.
+
+(* the theorems instantiated at exactly the function that is extracted and run against the real containers *)
+Theorem cfg_all_histories : forall c os s outs, 0 < c_cap c -> 0 <= c_logStart c ->
+  cfg_run c (hinit Z) os = Some (s, outs) ->
+  Inv Z 0 (fun _ b => b) (spread (c_dist c)) (c_cap c) (c_wf0 c) start_mask (cfg_next c) (c_nothrow c) s /\
+  refines [] os outs (abs Z s).
+Proof.
+  intros c os s outs H1 H2 H. rewrite cfg_run_is_run in H. pose proof (concrete_kind_ok c H1 H2) as K. split.
+  - eapply relocate_interrupted_inv; eauto.
+  - eapply history_refines_set; eauto.
+Qed.
+
+(* Open2N2<3>, slow-hash keys, identity hash, 2 start buckets: the history of the harness smoke test.
+   insert 1..5, 6 with refused growth (fallback), 8 with a migration that throws after 1 item, 9..14 with
+   migrations that throw at once, 15 throwing after 1 item: THREE coexisting generations. *)
+Definition ex_cfg : config := mkCfg 1 1 3 true 1 0 false.
+Definition ins (k : Z) := OInsert k false false false [].
+Definition ex_ops : list op :=
+  [ins 1; ins 2; ins 3; ins 4; ins 5; OInsert 6 false false true [];
+   OInsert 8 false false false [false; true];
+   OInsert 9 false false false [true]; OInsert 10 false false false [true]; OInsert 11 false false false [true];
+   OInsert 12 false false false [true]; OInsert 13 false false false [true]; OInsert 14 false false false [true];
+   OInsert 15 false false false [false; true]].
+
+Definition ex_summary (r : option (hset Z * list out)) : option (nat * Z * Z * list bool * list Z) :=
+  match r with
+  | None => None
+  | Some (s, outs) => Some (length (gens Z s), count Z s, capacity Z s,
+                            map (cfg_find ex_cfg s) [1; 2; 3; 4; 5; 6; 7; 8; 9; 10; 11; 12; 13; 14; 15],
+                            map (fun t => Z.of_nat (length (tkeys Z t))) (gens Z s))
+  end.
+
+Example ex_three_generations :
+  ex_summary (cfg_run ex_cfg (hinit Z) ex_ops) =
+  Some (3%nat, 14, 22, [true; true; true; true; true; true; false; true; true; true; true; true; true; true; true], [4; 6; 4]).
+Proof. vm_compute. reflexivity. Qed.
+
+(* one failure-free insertion (growth not needed) completes the migration; a removal and the traversal still work *)
+Example ex_migration_completes :
+  ex_summary (cfg_run ex_cfg (hinit Z) (ex_ops ++ [ins 16; ORemove 3])) =
+  Some (1%nat, 14, 22, [true; true; false; true; true; true; false; true; true; true; true; true; true; true; true], [14]).
+Proof. vm_compute. reflexivity. Qed.
+
+(* with every growth refused the fallback path overloads the 2-bucket table up to 6 = 2*3 items, then "full" *)
+Example ex_refused_until_full :
+  match cfg_run ex_cfg (hinit Z) ([ins 1; ins 2; ins 3; ins 4; ins 5] ++ map (fun k => OInsert k false false true []) [6; 7; 8]) with
+  | Some (s, outs) => (outs, count Z s, capacity Z s, length (gens Z s))
+  | None => ([], 0, 0, 0%nat)
+  end = ([RInserted; RInserted; RInserted; RInserted; RInserted; RInserted; RFull; RFull], 6, 5, 1%nat).
+Proof. vm_compute. reflexivity. Qed.
